@@ -714,15 +714,10 @@ func (r *Reconciler) reconcileApply(ctx context.Context, proposal *configapi.Pro
 					failureType = configapi.Failure_INTERNAL
 				}
 
-				// Update the Configuration's applied index to indicate this Proposal was applied even though it failed.
-				log.Infof("Updating applied index for Configuration '%s' to %d in term %d", config.ID, proposal.TransactionIndex, config.Status.Mastership.Term)
-				config.Status.Applied.Index = proposal.TransactionIndex
-				if err := r.configurations.UpdateStatus(ctx, config); err != nil {
-					log.Warnf("Failed reconciling Transaction %d Proposal to target '%s'", proposal.TransactionIndex, proposal.TargetID, err)
-					return controller.Result{}, err
-				}
-
-				// Add the failure to the proposal's apply phase state.
+				// Add the failure to the proposal's apply phase state first. The applied index may move past a
+				// refused change only once the refusal is on record: if the index moved first and the process
+				// stopped (or this write were lost to a conflict) in between, the next reconciliation would find the
+				// index already past the proposal and record the refused change as APPLIED.
 				log.Warnf("Failed applying Proposal '%s'", proposal.ID, err)
 				proposal.Status.Phases.Apply.State = configapi.ProposalApplyPhase_FAILED
 				proposal.Status.Phases.Apply.Failure = &configapi.Failure{
@@ -731,7 +726,17 @@ func (r *Reconciler) reconcileApply(ctx context.Context, proposal *configapi.Pro
 				}
 				proposal.Status.Phases.Apply.Term = config.Status.Mastership.Term
 				proposal.Status.Phases.Apply.End = getCurrentTimestamp()
-				if err := r.updateProposalStatus(ctx, proposal); err != nil {
+				if err := r.proposals.UpdateStatus(ctx, proposal); err != nil {
+					// Not recorded (write conflict, store failure): leave the applied index where it is and retry.
+					log.Warnf("Failed reconciling Transaction %d Proposal to target '%s'", proposal.TransactionIndex, proposal.TargetID, err)
+					return controller.Result{}, err
+				}
+
+				// Update the Configuration's applied index to indicate this Proposal was applied even though it failed.
+				log.Infof("Updating applied index for Configuration '%s' to %d in term %d", config.ID, proposal.TransactionIndex, config.Status.Mastership.Term)
+				config.Status.Applied.Index = proposal.TransactionIndex
+				if err := r.configurations.UpdateStatus(ctx, config); err != nil {
+					log.Warnf("Failed reconciling Transaction %d Proposal to target '%s'", proposal.TransactionIndex, proposal.TargetID, err)
 					return controller.Result{}, err
 				}
 				return controller.Result{}, nil
@@ -764,6 +769,33 @@ func (r *Reconciler) reconcileApply(ctx context.Context, proposal *configapi.Pro
 		}
 		return controller.Result{}, nil
 	case configapi.ProposalApplyPhase_APPLIED:
+		if proposal.Status.NextIndex != 0 {
+			return controller.Result{
+				Requeue: controller.NewID(proposalstore.NewID(proposal.TargetID, proposal.Status.NextIndex)),
+			}, nil
+		}
+		return controller.Result{}, nil
+	case configapi.ProposalApplyPhase_FAILED:
+		// The refusal is on record. An earlier attempt may have stopped before the applied index was moved past
+		// this proposal: complete that step, so that later proposals are not blocked.
+		configID := configuration.NewID(proposal.TargetID, proposal.TargetType, proposal.TargetVersion)
+		config, err := r.configurations.Get(ctx, configID)
+		if err != nil {
+			if !errors.IsNotFound(err) {
+				log.Errorf("Failed reconciling Transaction %d Proposal to target '%s'", proposal.TransactionIndex, proposal.TargetID, err)
+				return controller.Result{}, err
+			}
+			return controller.Result{}, nil
+		}
+		if config.Status.Applied.Index < proposal.TransactionIndex &&
+			(proposal.Status.PrevIndex == 0 || config.Status.Applied.Index == proposal.Status.PrevIndex) {
+			log.Infof("Updating applied index for Configuration '%s' to %d", config.ID, proposal.TransactionIndex)
+			config.Status.Applied.Index = proposal.TransactionIndex
+			if err := r.configurations.UpdateStatus(ctx, config); err != nil {
+				log.Warnf("Failed reconciling Transaction %d Proposal to target '%s'", proposal.TransactionIndex, proposal.TargetID, err)
+				return controller.Result{}, err
+			}
+		}
 		if proposal.Status.NextIndex != 0 {
 			return controller.Result{
 				Requeue: controller.NewID(proposalstore.NewID(proposal.TargetID, proposal.Status.NextIndex)),
